@@ -150,6 +150,7 @@ def other_rows(run, rows, quick):
     try:
         uid, key = s.key(32, "AES")
         suid, secret = s.key(20, "secret", otype="SecretData", seed=3)
+        suid2, secret2 = s.key(24, "secret", otype="SecretData", seed=4)      # a second base object: the derivation data when none is given
         msgs = [b"", b"a", b"0123456789abcdef", b"0123456789abcdefX", bytes(range(200))]
         for rec in rows:
             if rec["k"] == "mac":
@@ -231,6 +232,25 @@ def other_rows(run, rows, quick):
                         run.violation("C06_derived_key_differs_from_reference", sig, {"row": rec, "got": got.hex(), "want": want.hex()})
                     if len(got) != nbytes:
                         run.violation("C06_derived_length", sig, {"row": rec, "got": len(got), "want": nbytes})
+                    # without explicit derivation data, a second base object (a Secret Data) supplies it: the first object is
+                    # the key, the second the data - also when the first one is a Secret Data itself
+                    if not d["hasdata"] and t not in ("Hash", "Pbkdf2"):
+                        req2 = dict(req, uids=[suid, suid2])
+                        r2 = item(s.drv.request(D.one("DeriveKey", req2, ver=(1, 4))))
+                        n += 1
+                        run.case(("derive-two-objects", common.jdump(sig), otype, r2["status"], r2["reason"]))
+                        if r2["status"] == "Success":
+                            try:
+                                want2 = R.hkdf(d["hash"], secret, salt if d["hassalt"] else None, secret2, nbytes) if t == "Hkdf" \
+                                    else R.kbkdf_counter(d["hash"], secret, secret2, nbytes)
+                            except Exception:
+                                want2 = None
+                            g2 = item(s.drv.request(D.one("Get", {"uid": r2["pl"]["uid"]})))
+                            got2 = s.intern.val(g2["pl"]["obj"]["val"])
+                            if want2 is not None and got2 != want2:
+                                run.violation("C06_derived_key_differs_from_reference", dict(sig, two_objects=True),
+                                              {"row": rec, "base_objects": "[Secret Data (key), Secret Data (derivation data)]",
+                                               "got": got2.hex(), "want": want2.hex()})
             elif rec["k"] == "wrap":
                 for nb in (16, 24, 32):
                     tu, tv = s.key(nb, "AES", seed=5)
